@@ -1282,8 +1282,7 @@ func (s *server) ReadModifyWriteRow(ctx context.Context, req *btpb.ReadModifyWri
 		resultCol.Cells = []*btpb.Cell{newCell}
 	}
 
-	r, _ = scrubRow(r, cols)
-	tbl.rows.ReplaceOrInsert(r)
+	tbl.updateRow(r) // scrubs; a row without cells (no rules) is not stored
 	resultRow, _ = scrubRow(resultRow, cols)
 	return &btpb.ReadModifyWriteRowResponse{Row: resultRow}, nil
 }
